@@ -138,7 +138,7 @@ def gen_sim_case(rng):
 # ---------------------------------------------------------------------------------------------------------
 # running twins
 # ---------------------------------------------------------------------------------------------------------
-def run_worker(twin, hashseed, cases, repo=None, timeout=600):
+def run_worker(twin, hashseed, cases, repo=None, timeout=1200):
     env = common.impl_python_env()
     repo = repo or common.REPO
     env["PYTHONPATH"] = repo + os.pathsep + os.path.join(common.VERIF, "harness")
@@ -155,7 +155,7 @@ def run_worker(twin, hashseed, cases, repo=None, timeout=600):
     raise RuntimeError("c11 worker (twin %s) produced no result: rc=%s %s" % (twin, p.returncode, p.stderr[-1500:]))
 
 
-def run_twins(batches, hashseeds, repo=None, jobs=8):
+def run_twins(batches, hashseeds, repo=None, jobs=8, timeout=1200):
     """batches: list of case lists. Returns list (per batch) of (resultsA, resultsB)."""
     work = []
     for bi, cases in enumerate(batches):
@@ -163,7 +163,7 @@ def run_twins(batches, hashseeds, repo=None, jobs=8):
         work.append((bi, "B", hashseeds[1], cases))
     out = {}
     with ThreadPoolExecutor(max_workers=jobs) as ex:
-        for (bi, twin, _, _), res in zip(work, ex.map(lambda w: run_worker(w[1], w[2], w[3], repo), work)):
+        for (bi, twin, _, _), res in zip(work, ex.map(lambda w: run_worker(w[1], w[2], w[3], repo, timeout), work)):
             out[(bi, twin)] = res
     return [(out[(bi, "A")], out[(bi, "B")]) for bi in range(len(batches))]
 
@@ -492,8 +492,8 @@ def run(ctx, replay=None):
     ctx.sample(dict(kind="twin GP case", case={k: v for k, v in gp_cases[0].items() if k != "other_kinds"}))
     ctx.sample(dict(kind="twin simulated experiment", case=sim_cases[0]))
 
-    batches = batches_of(gp_cases, ctx.n(6, 12)) + batches_of(cases, ctx.n(4, 10)) + batches_of(sim_cases, ctx.n(2, 4))
-    results = run_twins(batches, hashseeds, jobs=ctx.n(8, 16))
+    batches = batches_of(gp_cases, ctx.n(6, 16)) + batches_of(cases, ctx.n(6, 28)) + batches_of(sim_cases, ctx.n(2, 6))
+    results = run_twins(batches, hashseeds, jobs=ctx.n(8, 16), timeout=ctx.n(1200, 3000))
     for cs, (ra, rb) in zip(batches, results):
         for c, a, b in zip(cs, ra, rb):
             judge(ctx, c, a, b, hashseeds, facts, funcmap)
